@@ -527,7 +527,7 @@ package netty
 //@ func (*channel).IsActive
 //@   inline
 
-//@ property C05 C06 C07 C13
+//@ property C05 C06 C07 C11 C12 C13
 //@ func (*channel).Close
 //@   event
 //@   mode intwrap
@@ -779,16 +779,22 @@ package netty
 //@ field channel.writeBuffers immutable newChannelWith
 //@ field channel.recycleBuffers immutable newChannelWith
 //@ field channel.closeErr atomic
-//@ field channel.writeLock owned_by (*channel).Writev, (*channel).CtxWrite1, (*channel).CtxWritev, (*channel).write1
+// the two merge buffers belong to the sender activation that holds the running token (C10)
+//@ field channel.writeBuffers owned_by (*channel).writeOnce, newChannelWith
+//@ field channel.recycleBuffers owned_by (*channel).writeOnce, newChannelWith
+//@ field channel.writeLock syncvalue
 // channel.attachment: outside the statement ("unsynchronised attachment access")
+//@ field channel.attachment unprotected
 
 //@ field channelHolder.* constructed_by NewChannelHolder
 //@ field channelHolder.channels guarded_by mutex
+//@ field channelHolder.mutex syncvalue
 
 //@ field readIdleHandler.* constructed_by ReadIdleHandler
 //@ lockwrapper (*readIdleHandler).withLock mutex w
 //@ lockwrapper (*readIdleHandler).withReadLock mutex r
 //@ field readIdleHandler.idleTime immutable ReadIdleHandler
+//@ field readIdleHandler.mutex syncvalue
 //@ field readIdleHandler.lastReadTime guarded_by mutex
 //@ field readIdleHandler.readTimer guarded_by mutex
 //@ field readIdleHandler.handlerCtx guarded_by mutex
@@ -796,14 +802,34 @@ package netty
 //@ lockwrapper (*writeIdleHandler).withLock mutex w
 //@ lockwrapper (*writeIdleHandler).withReadLock mutex r
 //@ field writeIdleHandler.idleTime immutable WriteIdleHandler
+//@ field writeIdleHandler.mutex syncvalue
 //@ field writeIdleHandler.lastWriteTime guarded_by mutex
 //@ field writeIdleHandler.writeTimer guarded_by mutex
 //@ field writeIdleHandler.handlerCtx guarded_by mutex
 
-// listener: Sync (accept goroutine) writes, Close (any goroutine) reads: no lock exists
+// listener: the accept goroutine creates the acceptor, Close/Acceptor run on any goroutine
 //@ field listener.* constructed_by (*bootstrap).Listen
 //@ field listener.bs immutable (*bootstrap).Listen
 //@ field listener.url immutable (*bootstrap).Listen
 //@ field listener.option immutable (*bootstrap).Listen
-//@ field listener.acceptor owned_by (*listener).Sync
-//@ field listener.options owned_by (*listener).Sync
+//@ field listener.acceptor guarded_by mutex
+//@ field listener.options guarded_by mutex
+//@ field listener.closed guarded_by mutex
+//@ field listener.mutex syncvalue
+
+// bootstrap: configured by NewBootstrap (the options run inside it), read-only afterwards; the
+// listener registry is a sync.Map
+//@ field bootstrapOptions.* constructed_by NewBootstrap
+//@ field bootstrap.* constructed_by NewBootstrap
+//@ field bootstrap.bootstrapOptions immutable NewBootstrap
+//@ field bootstrap.listeners syncvalue
+//@ field bootstrapOptions.bootstrapCtx immutable NewBootstrap, WithContext
+//@ field bootstrapOptions.bootstrapCancel immutable NewBootstrap, WithContext
+//@ field bootstrapOptions.clientInitializer immutable NewBootstrap, WithClientInitializer
+//@ field bootstrapOptions.childInitializer immutable NewBootstrap, WithChildInitializer
+//@ field bootstrapOptions.transportFactory immutable NewBootstrap, WithTransport
+//@ field bootstrapOptions.channelFactory immutable NewBootstrap, WithChannel
+//@ field bootstrapOptions.pipelineFactory immutable NewBootstrap, WithPipeline
+//@ field bootstrapOptions.channelIDFactory immutable NewBootstrap, WithChannelID
+//@ field bootstrapOptions.executor immutable NewBootstrap, WithExecutor
+//@ field bootstrapOptions.holder immutable NewBootstrap, WithChannelHolder
